@@ -478,7 +478,14 @@ func (h *Header) DelExtension(id uint8) error {
 	}
 	for i, extension := range h.Extensions {
 		if extension.id == id {
-			h.Extensions = append(h.Extensions[:i], h.Extensions[i+1:]...)
+			// A header that came off the wire can name an id more than once: none of them stays.
+			kept := h.Extensions[:i]
+			for _, other := range h.Extensions[i+1:] {
+				if other.id != id {
+					kept = append(kept, other)
+				}
+			}
+			h.Extensions = kept
 
 			return nil
 		}
